@@ -279,6 +279,14 @@ Definition decode1 (l : list Z) : option (op * list Z) :=
       end
   | 7 :: n :: c :: r => Some (OResize (n mod two64) (c mod 256), r)
   | 8 :: r => Some (OClear, r)
+  (* 10 m bits n text.. : append(double) and what forwards to it.  The model has no floating point: the case carries the
+     "%g" text of the value (computed by the generator; the harness ignores it and calls the real overload with the value
+     whose 64-bit pattern is `bits`), and append(double x) { return appendFormat("%g", x); } is the formatted piece with an
+     empty literal prefix.  m = 2, 3: xconvert(std::string& tmp, double) / toString(double) on a temporary, whose result
+     is then appended with append(ptr, n). *)
+  | 10 :: m :: _ :: r =>
+      let '(t, r') := take r in
+      if (m =? 2) || (m =? 3) then Some (OBytes t, r') else Some (OFormat [] (Some t), r')
   | _ => None
   end.
 
